@@ -164,12 +164,14 @@ impl Move {
                 s
             }
             Self::Promotion {
+                start,
                 end,
                 captured_piece,
                 new_piece,
                 ..
             } => {
                 let mut s = String::new();
+                s.push(((start.col()) as u8 + b'a') as char);
                 if captured_piece.is_some() {
                     s.push('x');
                 }
@@ -179,8 +181,8 @@ impl Move {
                 s.push(match new_piece {
                     PieceType::Queen => 'Q',
                     PieceType::Rook => 'R',
-                    PieceType::Bishop => 'K',
-                    PieceType::Knight => 'B',
+                    PieceType::Bishop => 'B',
+                    PieceType::Knight => 'N',
                     _ => unreachable!(),
                 });
                 s
